@@ -84,6 +84,11 @@ class Model:
 
     # ---- constraints ---------------------------------------------------------------
     def _c(self, q):
+        if self.curved == "wavy":      # a curve with several nearby branches: q1 = sin(3 q0)
+            c = [q[1] - np.sin(3.0 * q[0])]
+            if self.k == 2:
+                c.append(q[2] - 0.3 * q[0] ** 2)
+            return np.array(c)
         if not self.curved:
             c = [q[0] + 0.5 * q[1] - 0.2]
             if self.k == 2:
@@ -96,6 +101,11 @@ class Model:
 
     def _jac(self, q):
         j = np.zeros((self.k, self.n))
+        if self.curved == "wavy":
+            j[0, 0], j[0, 1] = -3.0 * np.cos(3.0 * q[0]), 1.0
+            if self.k == 2:
+                j[1, 0], j[1, 2] = -0.6 * q[0], 1.0
+            return j
         if not self.curved:
             j[0, 0], j[0, 1] = 1.0, 0.5
             if self.k == 2:
@@ -120,7 +130,15 @@ class Model:
         self._enter("mhp_constr")
         k, curved = self.k, self.curved
 
+        q = np.array(q)
+
         def mhp(m):
+            if curved == "wavy":
+                out = np.zeros(m.shape[1])
+                out[0] = 9.0 * np.sin(3.0 * q[0]) * m[0, 0]
+                if k == 2:
+                    out[0] += -0.6 * m[1, 0]
+                return out
             if not curved:
                 return np.zeros(m.shape[1])
             out = 2.0 * m[0, :].copy()
